@@ -56,6 +56,49 @@ NOT_YET = {
     "C20": "not built yet in this round",
 }
 
+CHECKS.update({
+    "C01": dict(
+        text="Seeded simulation search: full simulations under every shipped scheduler plus the starter template, and "
+             "executor-level chaos streams with dependency-violating decisions (pending parent, child listed before "
+             "parent, child behind an unrelated operator); every transition to RUNNING is checked against the parents' "
+             "state at that event. The DAG-iteration clause is a pure function: all 35 355 insertion-ordered DAGs on 1..6 nodes "
+             "are enumerated (reported separately as exhaustive).",
+        note="Trusts the transition log seam (wrapper around PipelineRuntimeStatus.transition, cross-checked against "
+             "operator_states snapshots).", ref="DESIGN 4/C01"),
+    "C02": dict(
+        text="Seeded request histories on all DAGs of 1..3 operators (most requests illegal), a complete sweep of every "
+             "reachable (state vector, operator, target) triple, plus simulated histories under all schedulers and "
+             "chaos streams with Assignment-construction faults.",
+        note="The sweep is complete over the model's reachable set for <=3 operators; simulated histories are sampled.",
+        ref="DESIGN 4/C02"),
+    "C06": dict(
+        text="Seeded full simulations (scenario workloads and the real WorkloadGenerator) under all shipped schedulers; "
+             "afterwards every returned statistic is compared with a recount from recorded arrivals, decisions, results "
+             "and the transition log; includes runs with nothing arriving/finishing and empty classes.",
+        note="p99 of container durations accepted over all ended or over successful containers; throughput over the "
+             "configured duration or the simulated ticks.", ref="DESIGN 4/C06"),
+    "C08": dict(
+        text="Seeded swarm over the valid configuration domain x well-formed workloads for naive, priority, "
+             "priority-pool, overbook and the template written by the real init_command; any exception or hang is a "
+             "violation. Known finding D3 (priority-pool in single-operator mode) is matched narrowly.",
+        note="Validity domain as written in DESIGN 4/C08; a per-run 60 s alarm stands in for 'hang'.", ref="DESIGN 4/C08"),
+    "C12": dict(
+        text="Seeded full simulations of priority / priority-pool with per-round oracles on order, FIFO, work "
+             "conservation and pre-emption, evaluated on the scheduler's real inputs/outputs and a snapshot of pools.",
+        note="Work conservation is stated over PENDING-ready operators (FAILED retries may legitimately wait).",
+        ref="DESIGN 4/C12"),
+    "C16": dict(text="Seeded full simulations of priority-pool on two pools with OOM/retry histories; per-round pool "
+                     "routing and retry-set oracles.", note="Expectations are registered from the round's results before "
+                     "its assignments are examined.", ref="DESIGN 4/C16"),
+    "C17": dict(text="Seeded full simulations of naive (and the template, same documented policy) with per-round oracles.",
+                note="Free CPU/RAM taken from a snapshot before the round.", ref="DESIGN 4/C17"),
+    "C18": dict(text="Seeded full simulations of overbook with overcommit and repeated pool-level kills; per-round "
+                     "shape, work-conservation and three-strikes oracles.", note="-", ref="DESIGN 4/C18"),
+})
+for _k in list(NOT_YET):
+    if _k in CHECKS:
+        del NOT_YET[_k]
+
 
 def main():
     checks = []
